@@ -1501,6 +1501,186 @@ PLAN = EFn('Session.plan', 'qstrader/trading/backtest.py', 'BacktestTradingSessi
            defs=['Qs.Sess.isReb', 'Qs.Sess.isEq', 'Qs.burnOk', 'Qs.EvKind.name'])
 
 
+# ------------------------------------------------------------------------------------------------------------
+# handler unit: a method that works on ONE key of a dictionary of translated objects (`PositionHandler.transact_position`).
+# The dictionary is abstracted to the slot under that key: `slot : Option (Position α)`.
+
+def translate_handler():
+    """-> (lean def text | None, reason)"""
+    path, cls, py = 'qstrader/broker/portfolio/position_handler.py', 'PositionHandler', 'transact_position'
+    try:
+        cu = ClassUnit(path, cls, {}, {'Txn': POSITION.obj_types['Txn']})
+        if py not in cu.methods:
+            raise Untranslatable('method %s.%s not found' % (cls, py))
+        m = cu.methods[py]
+        if [a.arg for a in m.args.args][1:] != ['transaction']:
+            raise Untranslatable('signature of %s' % py)
+        pos_fns = {f.py: f for f in POSITION.fns}
+        KEY = 't.asset'
+        DICT = 'positions'
+
+        def is_dict(n):
+            return isinstance(n, ast.Attribute) and isinstance(n.value, ast.Name) and n.value.id == 'self' and n.attr == DICT
+
+        def key_ok(n, ctx):
+            v = cu.ev(n, ctx, 0)
+            if pr(v) != KEY:
+                raise Untranslatable('dictionary key %s is not the transaction\'s asset' % ast.unparse(n))
+
+        def slot_value(ctx):
+            sl = ctx.fields.get('__slot__')
+            if sl is None:
+                raise Untranslatable('the dictionary is read before membership of the key is known')
+            if sl == 'abs':
+                raise Untranslatable('the dictionary is read under a key that is absent on this path')
+            return sl
+
+        def run(stmts, ctx):
+            stmts = [x for x in stmts if not is_noop_stmt(x)]
+            if not stmts:
+                return ('ret', None, ctx)
+            st, rest = stmts[0], stmts[1:]
+            # `if K in self.positions:`
+            if isinstance(st, ast.If) and isinstance(st.test, ast.Compare) and len(st.test.ops) == 1 and \
+                    isinstance(st.test.ops[0], (ast.In, ast.NotIn)) and is_dict(st.test.comparators[0]):
+                key_ok(st.test.left, ctx)
+                neg = isinstance(st.test.ops[0], ast.NotIn)
+                known = ctx.fields.get('__slot__')
+                b_in, b_out = (st.orelse, st.body) if neg else (st.body, st.orelse)
+                if known is not None:
+                    return run((list(b_out) if known == 'abs' else list(b_in)) + rest, ctx)
+                c1, c2 = ctx.copy(), ctx.copy()
+                c1.fields['__slot__'] = 'p'
+                c2.fields['__slot__'] = 'abs'
+                return ('match', run(list(b_in) + rest, c1), run(list(b_out) + rest, c2))
+            if isinstance(st, ast.If):
+                c = cu.truth(ev(st.test, ctx))
+                if c[0] == 'blit':
+                    return run((list(st.body) if c[1] else list(st.orelse)) + rest, ctx)
+                return ('if', c, run(list(st.body) + rest, ctx.copy()), run(list(st.orelse) + rest, ctx.copy()))
+            if isinstance(st, ast.Delete) and len(st.targets) == 1 and isinstance(st.targets[0], ast.Subscript) and is_dict(st.targets[0].value):
+                key_ok(st.targets[0].slice, ctx)
+                slot_value(ctx)
+                ctx.fields['__slot__'] = 'abs'
+                return run(rest, ctx)
+            if isinstance(st, ast.Assign) and len(st.targets) == 1:
+                tg = st.targets[0]
+                if isinstance(tg, ast.Subscript) and is_dict(tg.value):
+                    key_ok(tg.slice, ctx)
+                    v = ev(st.value, ctx)
+                    if ty_of(v) != 'obj:Pos':
+                        raise Untranslatable('a %s stored in the dictionary' % ty_of(v))
+                    ctx.fields['__slot__'] = pr(v)
+                    return run(rest, ctx)
+                if isinstance(tg, ast.Name):
+                    ctx.locs[tg.id] = ev(st.value, ctx)
+                    return run(rest, ctx)
+                raise Untranslatable('assignment target %s' % ast.unparse(tg))
+            if isinstance(st, ast.Expr) and isinstance(st.value, ast.Call):
+                f = st.value.func
+                # self.positions[K].<mutator>(transaction), or the same through a local that holds that object
+                target_is_slot = False
+                if isinstance(f, ast.Attribute) and isinstance(f.value, ast.Subscript) and is_dict(f.value.value):
+                    key_ok(f.value.slice, ctx)
+                    target_is_slot = True
+                elif isinstance(f, ast.Attribute) and isinstance(f.value, ast.Name) and f.value.id in ctx.locs:
+                    v_ = ctx.locs[f.value.id]
+                    if v_[0] == 'var' and v_[2] == 'obj:Pos' and ctx.fields.get('__slot__') not in (None, 'abs') and v_[1] == ctx.fields['__slot__']:
+                        target_is_slot = True
+                if target_is_slot:
+                    cur = slot_value(ctx)
+                    fn = pos_fns.get(f.attr)
+                    if fn is None or fn.kind != 'mutexc' or len(st.value.args) != 1 or st.value.keywords:
+                        raise Untranslatable('call of %s on a stored object' % f.attr)
+                    a = ev(st.value.args[0], ctx)
+                    if pr(a) != 't':
+                        raise Untranslatable('argument of %s' % f.attr)
+                    call = '(Qs.Gen.Position.%s %s t)' % (fn.lean, cur)
+                    c_err, c_ok = ctx.copy(), ctx.copy()
+                    c_err.fields['__slot__'] = '%s.1' % call
+                    c_ok.fields['__slot__'] = '%s.1' % call
+                    return ('if', V('(%s.2).isSome' % call, 'bool'), ('raise', 'DYN:%s.2' % call, c_err), run(rest, c_ok))
+                raise Untranslatable('statement call %s' % ast.unparse(f))
+            if isinstance(st, ast.Return):
+                return ('ret', None, ctx)
+            if isinstance(st, ast.Raise):
+                return ('raise', 'ValueError', ctx)
+            raise Untranslatable('statement %s' % type(st).__name__)
+
+        orig_ev = cu.ev
+        pos_fields = {a_: (f_, t_) for a_, (f_, t_) in POSITION.fieldmap.items()}
+
+        def ev2(n, ctx, depth=0):
+            # Position.<ctor>(transaction)
+            if isinstance(n, ast.Call) and isinstance(n.func, ast.Attribute) and isinstance(n.func.value, ast.Name) and n.func.value.id == 'Position':
+                fn = pos_fns.get(n.func.attr)
+                if fn is None or fn.kind != 'ctor' or len(n.args) != 1 or pr(cu.ev(n.args[0], ctx, depth)) != 't':
+                    raise Untranslatable('call of Position.%s' % n.func.attr)
+                return V('(Qs.Gen.Position.%s t)' % fn.lean, 'obj:Pos')
+            # self.positions[K]: the object stored under the key
+            if isinstance(n, ast.Subscript) and is_dict(n.value):
+                key_ok(n.slice, ctx)
+                return V(slot_value(ctx), 'obj:Pos')
+            # <position object>.<property | attribute>
+            if isinstance(n, ast.Attribute) and not is_dict(n):
+                try:
+                    base = cu.ev(n.value, ctx, depth)
+                except Untranslatable:
+                    base = None
+                if base is not None and base[0] == 'var' and base[2] == 'obj:Pos':
+                    fn = pos_fns.get(n.attr)
+                    if fn is not None and fn.kind == 'pure' and not fn.params:
+                        return V('(Qs.Gen.Position.%s %s)' % (fn.lean, base[1]), fn.ret)
+                    if n.attr in pos_fields:
+                        return V('%s.%s' % (base[1], pos_fields[n.attr][0]), pos_fields[n.attr][1])
+                    raise Untranslatable('attribute %s of a Position' % n.attr)
+            return orig_ev(n, ctx, depth)
+        cu.ev = ev2
+
+        def ev(n, ctx):
+            return cu.ev(n, ctx, 0)
+
+        ctx = Ctx(cu, {'__slot__': None}, {'transaction': V('t', 'obj:Txn')})
+        tree = run(list(m.body), ctx)
+
+        def leaf(t):
+            sl = t[2].fields.get('__slot__')
+            if sl is None:
+                sl_txt = 'slot'
+            else:
+                sl_txt = 'none' if sl == 'abs' else '(some %s)' % sl
+            err = (t[1][4:] if t[1].startswith('DYN:') else 'some .value') if t[0] == 'raise' else 'none'
+            return '(%s, %s)' % (sl_txt, err)
+
+        def prt(t, ind):
+            pad = '  ' * ind
+            if t[0] == 'match':
+                return 'match slot with\n%s| some p =>\n%s  %s\n%s| none =>\n%s  %s' % (pad, pad, prt(t[1], ind + 1), pad, pad, prt(t[2], ind + 1))
+            if t[0] == 'if':
+                return 'if %s then\n%s  %s\n%selse\n%s  %s' % (pr(t[1]), pad, prt(t[2], ind + 1), pad, pad, prt(t[3], ind + 1))
+            return leaf(t)
+        text = ('def transactPosition (slot : Option (Qs.Position α)) (t : Qs.Txn α) : Option (Qs.Position α) × Option Err :=\n  %s\n'
+                % prt(tree, 1))
+        return text, None
+    except Untranslatable as e:
+        return None, str(e)
+    except (RecursionError, KeyError, IndexError) as e:
+        return None, 'translator limit: %s' % type(e).__name__
+
+
+HANDLER_PROOF = """  unfold Qs.Gen.Handler.transactPosition Qs.Positions.transactPosition
+  rcases hf : Qs.Positions.find? ps t.asset with _ | p
+  · simp only [tie_Position_net, tie_Position_openFrom]
+    split_ifs with h1 <;>
+      simp_all [find_erase, find_append_new ps _ t.asset hf (openFrom_asset t)]
+  · have hpa : p.asset = t.asset := find_asset ps p t.asset hf
+    simp only [tie_Position_transact p t hpa, tie_Position_net]
+    have hp' : (Qs.Position.transact p t).1.asset = t.asset := by rw [transact_asset, hpa]
+    rcases ht : Qs.Position.transact p t with ⟨p', _ | e⟩ <;> rw [ht] at hp' <;>
+      simp only [Option.isSome_none, Option.isSome_some, Bool.false_eq_true, if_false, if_true] <;>
+      (try split_ifs) <;> simp_all [find_erase, find_set ps p p' t.asset hf hp']"""
+
+
 PEVENT = ForeignClass('qstrader/broker/portfolio/portfolio_event.py', 'PortfolioEvent',
                       dict(dt='int', type='str', debit='num', credit='num', balance='num'))
 PF_FIELDS = dict(current_dt=V('clock', 'int'), cash=V('cash', 'num'))
@@ -1746,6 +1926,45 @@ def generate(outdir=None, verbose=False, omit_defs=(), omit_thms=()):
     tie += 'end Qs.Tie\n'
     _write_if_changed(os.path.join(outdir, 'QsGen', 'Kernels.lean'), gen)
     _write_if_changed(os.path.join(outdir, 'QsProofs', 'Tie', 'KernelsGen.lean'), tie)
+    # the position handler (one key of a dictionary of Position objects)
+    text, why = translate_handler()
+    key = 'Handler.transactPosition'
+    gen = ('/-\n  GENERATED by harness/translate.py from qstrader/broker/portfolio/position_handler.py — do not edit.\n-/\n'
+           'import QsGen.Position\n\nnamespace Qs.Gen\nopen NumOps Num\n\nsection\n'
+           'variable {α : Type} [Add α] [Sub α] [Mul α] [Div α] [Neg α] [NumOps α]\n\nnamespace Handler\n\n')
+    tie = (TIE_HEAD % ('qstrader/broker/portfolio/position_handler.py', 'Handler')).replace(
+        'import QsProofs.Tie.Tactic\n', 'import QsProofs.Tie.Tactic\nimport QsProofs.Tie.PositionGen\nimport QsProofs.Tie.HandlerLemmas\n')
+    if text is not None and key in omit_defs:
+        text, why = None, 'the generated definition does not typecheck'
+    pos_ok = all(status.get(k, {}).get('translated') and status[k].get('proved') is not False
+                 for k in ('Position.transact', 'Position.net', 'Position.openFrom'))
+    if text is not None and not pos_ok:
+        text, why = None, 'the Position methods it calls are not tied in their current form'
+    if text is None:
+        status[key] = dict(translated=False, reason=why, python='PositionHandler.transact_position',
+                           file='qstrader/broker/portfolio/position_handler.py', unit='Handler')
+        gen += '-- PositionHandler.transact_position: not translatable (%s)\n\n' % why
+    else:
+        g0 = gen.count('\n') + 1
+        gen += '/-- `PositionHandler.transact_position`, on the slot under the transaction\'s asset -/\n%s\n' % text
+        full = 'Qs.Tie.tie_Handler_transactPosition'
+        ent = dict(translated=True, python='PositionHandler.transact_position', file='qstrader/broker/portfolio/position_handler.py',
+                   unit='Handler', theorem=full, def_span=[g0, gen.count('\n')])
+        if full in omit_thms:
+            ent['proved'] = False
+            tie += '-- tie_Handler_transactPosition: the proof does not check against the current source\n\n'
+        else:
+            t0 = tie.count('\n') + 1
+            tie += ('theorem tie_Handler_transactPosition (ps : Qs.Positions α) (t : Qs.Txn α) :\n'
+                    '    Qs.Gen.Handler.transactPosition (Qs.Positions.find? ps t.asset) t\n'
+                    '      = (Qs.Positions.find? (Qs.Positions.transactPosition ps t).1 t.asset, (Qs.Positions.transactPosition ps t).2) := by\n'
+                    + HANDLER_PROOF + '\n\n')
+            ent['thm_span'] = [t0, tie.count('\n')]
+        status[key] = ent
+    gen += 'end Handler\n\nend\nend Qs.Gen\n'
+    tie += 'end Qs.Tie\n'
+    _write_if_changed(os.path.join(outdir, 'QsGen', 'Handler.lean'), gen)
+    _write_if_changed(os.path.join(outdir, 'QsProofs', 'Tie', 'HandlerGen.lean'), tie)
     # the session loop's plan
     fn = PLAN
     text, why = translate_plan(fn)
